@@ -61,15 +61,15 @@ type ImageSeg struct {
 
 // T is the handle a harness receives.
 type T struct {
-	inputs   []Input
-	pos      int
-	Failed   []string
-	mismatch string
-	tmp      string
-	images   []Image
+	inputs     []Input
+	pos        int
+	Failed     []string
+	mismatch   string
+	tmp        string
+	images     []Image
 	crashCalls int
-	cleanup  []func()
-	start    time.Time
+	cleanup    []func()
+	start      time.Time
 }
 
 type assumeFalse struct{}
